@@ -146,9 +146,17 @@ def long_lines(rng, tier):
     return out
 
 
+def pinned_signs():
+    out = []
+    for text, v, cur in (("200 + -%10", 180, None), ("200 - -%10", 220, None), ("200 + - 10%", 180, None), ("200 - - 10%", 220, None),
+                         ("$200 + -%10", 180, "USD"), ("200 + -(10%)", 180, None), ("200 - %-10", 220, None), ("200 + -10%", 180, None)):
+        out.append(exec_case(text, "en", kind="pinned-sign", nlines=1, expect=[v, 1], mag=[400, 1], typ="same", cur=cur))
+    return out
+
+
 def generate(rng, tier):
     n = 600 if tier == "quick" else 8000
-    cases, seen = long_lines(rng, tier), set()
+    cases, seen = long_lines(rng, tier) + pinned_signs(), set()
     while len(cases) < n:
         phrase = PHRASES[len(cases) % len(PHRASES)] if rng.random() < 0.8 else rng.choice(PHRASES)
         money = rng.random() < 0.45
@@ -158,7 +166,14 @@ def generate(rng, tier):
         mags = [abs(x.val)]
         if phrase in ("plus", "minus"):
             op = "+" if phrase == "plus" else "-"
-            text = x.text + sp() + op + sp() + p.text
+            ptext = p.text
+            if p.val < 0 and not p.pre and rng.random() < 0.6:
+                # the sign detached from the literal: a unary minus applied to the percent token
+                if ptext.startswith("%-"):
+                    ptext = "-%" + ptext[2:]
+                elif ptext.startswith("-") and ptext.endswith("%"):
+                    ptext = "- " + ptext[1:]
+            text = x.text + sp() + op + sp() + ptext
             share = x.val * p.val / 100
             exp = x.val + share if phrase == "plus" else x.val - share
             typ, mags = "same", mags + [abs(share)]
@@ -200,12 +215,12 @@ def generate(rng, tier):
             # the same phrase written in the other convention (decimal '.', thousands ','): both percent spellings and
             # every literal are read through the configured separators
             full = full.translate(str.maketrans(",.", ".,"))
-            pre_ops = [{"op": "set_dec", "v": "."}, {"op": "set_thou", "v": ","}]
+            pre_ops = sep_ops(".", ",")
             kind += "-dot"
             if r < 0.1:
                 # ... and without any grouping: an EMPTY thousands separator (the configuration of the crate's execute_4)
                 full = full.replace(",", "")
-                pre_ops = [{"op": "set_dec", "v": "."}, {"op": "set_thou", "v": ""}]
+                pre_ops = sep_ops(".", "")
                 kind += "-nogroup"
         elif "[" not in full and r < 0.33:
             full = full.replace(".", "")
